@@ -53,12 +53,20 @@ Derive(op, v) ==
     [] op = "walk-subset"   -> FirstSliceable(v)
     [] op = "stale-assembler" -> MapV(<<<<97>>, <<98>>>>, <<I(1), ListV(<<I(2)>>)>>)
                                  \* a fresh node whose builder keeps a value-assembler handle it then calls after Build
+    [] op = "wrap-assign-mutate" -> MapV(<<<<120>>>>, <<ListV(<<I(1), I(2)>>)>>)
+                                 \* a Go value of the caller is wrapped, the wrapped node is ASSIGNED into a builder of the
+                                 \* same type (the copy is the new node), then the caller changes its own Go value
     [] OTHER -> Nil                      \* read, iter-partial, encode-*, walk: no new node
+
+\* schema-typed nodes (and what keeps their prototype): a replacement by an arbitrary value is not acceptable there
+RECURSIVE Typed(_)
+Typed(i) == nodes[i].by = "wrap-assign-mutate" \/ (nodes[i].by = "assign-top-then-reset" /\ nodes[i].src > 0 /\ Typed(nodes[i].src))
 
 Op(op, i) ==
   /\ n < MaxOps /\ n' = n + 1
   /\ i \in DOMAIN nodes
   /\ op = "reset-reuse" => (nodes[i].src = 0 \/ nodes[i].by = "reset-reuse")      \* only builders the history still holds
+  /\ op = "transform" => ~Typed(i)
   /\ LET d == Derive(op, nodes[i].v) IN
      nodes' = IF d # Nil /\ Len(nodes) < MaxNodes THEN Append(nodes, [v |-> d, by |-> op, src |-> i]) ELSE nodes
   /\ hist' = Append(hist, [op |-> op, i |-> i, made |-> (Derive(op, nodes[i].v) # Nil /\ Len(nodes) < MaxNodes)])
